@@ -14,7 +14,8 @@ for f in sorted(glob.glob(os.path.join(HERE, 'evidence', 'C*.json'))):
     if not st:
         print(f"| {j['property_id']} | {j['tier']} | - | - | - | - | - | - |")
         continue
-    row = [st['reported'], st['seeded_breaks'], len(st['refused_exit_2']), st['survived'], st['silent'], st['behaviour_preserving_variants'], st['behaviour_preserving_refused_exit_2'], st['false_alarms']]
+    n = lambda v: len(v) if isinstance(v, (list, dict)) else v  # noqa: E731
+    row = [n(st[k]) for k in ('reported', 'seeded_breaks', 'refused_exit_2', 'survived', 'silent', 'behaviour_preserving_variants', 'behaviour_preserving_refused_exit_2', 'false_alarms')]
     print(f"| {j['property_id']} | {j['tier']} | {row[0]}/{row[1]} | {row[2]} | {row[3]} | {row[4]}/{row[5]} | {row[6]} | {row[7]} |")
     for i, k in enumerate([0, 1, 3, 4, 5, 7]):
         tot[i] += row[k]
